@@ -252,6 +252,56 @@ def record(ctx, prog, ver):
         ctx.ok(rule, body.id, "the only path that keeps the publish without sending it parks it in `collision`")
     elif nones:
         ctx.violation(rule, body.id, "publish swallowed", "outgoing_publish can return Ok(None) without parking the publish in `collision`: the accepted message disappears", site=body.fn_loc())
+    release_recorded(ctx, prog, ver)
+
+
+def release_recorded(ctx, prog, ver):
+    """a PUBREL that goes on the wire (answer to PUBREC, or a replayed Request::PubRel) is first recorded in
+    `outgoing_rel` under its own packet id — that set is what clean() turns back into PubRel requests"""
+    rule = "R-C02-record-before-send"
+
+    def rel_inserts(body):
+        out = []
+        for bb, t in body.calls():
+            if body.is_cleanup(bb) or not callee_path(t).endswith("FixedBitSet::insert"):
+                continue
+            fs = [x.split(".")[-1] for x in (receiver_fields(body, t) or [])]
+            if fs[-1:] != ["outgoing_rel"]:
+                continue
+            src = flatten_src(provenance(body, t["args"][1]))
+            own = bool(src) and all((getattr(s, "fields", None) and s.fields[-1] == "pkid") or (s.kind == "call" and s.path.endswith("MqttState::next_pkid")) for s in src)
+            out.append((bb, own))
+        return out
+    # replay path: outgoing_pubrel -> save_pubrel
+    sp = state_fn(prog, ver, "save_pubrel")
+    ins = rel_inserts(sp)
+    oks = [bi for bi, b in enumerate(sp.blocks) if not b.get("cleanup") for st in b["s"]
+           if "lhs" in st and st["lhs"]["l"] == 0 and st["rv"]["k"] == "agg" and st["rv"].get("var") == "Ok"]
+    if not oks:
+        raise AnchorMissing("save_pubrel (%s): Ok return not found" % ver)
+    if ins and all(o for _, o in ins) and not (reachable(sp, (0,), avoid_blocks=[b for b, _ in ins]) & set(oks)):
+        ctx.ok(rule, sp.id, "every Ok path records the release in outgoing_rel under the PUBREL's own packet id")
+    else:
+        ctx.violation(rule, sp.id, "replayed PUBREL unrecorded",
+                      "save_pubrel can return Ok without inserting the PUBREL's packet id into outgoing_rel: a replayed release is sent but not tracked, so a second failure loses it and its PUBCOMP is rejected as unsolicited",
+                      site=sp.fn_loc())
+    op = state_fn(prog, ver, "outgoing_pubrel")
+    saves = [bb for bb, t in op.calls() if callee_path(t).endswith("MqttState::save_pubrel") and not op.is_cleanup(bb)]
+    rels = [bb for bb, v in returned_packets(op) if v == "PubRel"]
+    if saves and rels and all(any(dominates(op, s, r) for s in saves) for r in rels):
+        ctx.ok(rule, op.id, "Packet::PubRel is returned only after save_pubrel")
+    else:
+        ctx.violation(rule, op.id, "PUBREL sent without save_pubrel", "outgoing_pubrel returns Packet::PubRel on a path that does not pass save_pubrel", site=op.fn_loc())
+    # answer to PUBREC
+    hp = state_fn(prog, ver, "handle_incoming_pubrec")
+    ins = rel_inserts(hp)
+    rels = [bb for bb, v in returned_packets(hp) if v == "PubRel"]
+    if not rels:
+        raise AnchorMissing("handle_incoming_pubrec (%s): Packet::PubRel construction not found" % ver)
+    if ins and all(o for _, o in ins) and not (reachable(hp, (0,), avoid_blocks=[b for b, _ in ins]) & set(rels)):
+        ctx.ok(rule, hp.id, "Packet::PubRel is built only after outgoing_rel.insert(pubrec.pkid)")
+    else:
+        ctx.violation(rule, hp.id, "PUBREL sent unrecorded", "handle_incoming_pubrec answers with PUBREL on a path that did not record the release in outgoing_rel under the PUBREC's packet id", site=hp.fn_loc())
 
 
 def clean_on_error(ctx, prog, ver):
